@@ -121,10 +121,35 @@ def solve_slot(ctx, chk, rule, slot, field, after, what):
     if le is None:
         chk.undecided(rule, where, "solve()[%d] (%s) is `%s`" % (slot, what, show(t)))
         return
-    node = sx.loops[t[1]].node
+    base_t = t
+    while base_t[0] == "call" and base_t[1] in ("list", "tuple") and len(base_t[2]) == 1:
+        base_t = base_t[2][0]
+    if base_t[0] not in ("compr", "res") or base_t[1] not in sx.loops:
+        chk.undecided(rule, where, "solve()[%d] (%s) is `%s`" % (slot, what, show(t)))
+        return
+    node = sx.loops[base_t[1]].node
+    try:
+        cfg.stmt_of(node)
+    except AnalysisError:
+        # the list is built inside an inlined helper: take the statement of solve() that defines the returned variable
+        node = None
+        rets = [r for r in walk_no_nested_defs(f.node) if isinstance(r, ast.Return) and isinstance(r.value, ast.Tuple) and len(r.value.elts) > slot]
+        if len(rets) == 1 and isinstance(rets[0].value.elts[slot], ast.Name):
+            defs = cfg.defs_reaching(rets[0], rets[0].value.elts[slot].id)
+            if len(defs) == 1:
+                node = next(iter(defs))
+        if node is None:
+            chk.undecided(rule, where, "solve()[%d] (%s): the statement that computes it was not located" % (slot, what))
+            return
     source, flt, elt, whole = le
     slist = sx.final.env.get(shared.solver_names(ctx)["var"])
     good_src = slist is not None and source in (slist, ("mcall", ("v", "self"), "init_states", (), ()))
+    if not good_src and source[0] == "attr" and source[2] == shared.solver_names(ctx)["field"] and source[1][0] == "call" and source[1][1] == "Solver" \
+            and slist is not None and (slist in source[1][2] or any(v == slist for _, v in source[1][3])):
+        good_src = True           # solver.<node list field> of the solver that was built on that very list
+    if not good_src and elt == ("attr", ("e",), field) and flt == TRUE and whole:
+        chk.undecided(rule, f.where(node), "%s are read from `%s`; that this is the solver's node list is not established" % (what, show(source)[:100]))
+        return
     if cfg.dominates(calls[0], node) and elt == ("attr", ("e",), field) and flt == TRUE and good_src and whole:
         chk.ok(rule, f.where(node), "solve()[%d] (%s) = [state.%s for state in state_list], read after %s()" % (slot, what, field, after))
     else:
@@ -193,10 +218,18 @@ def r2_kernels(ctx, chk, rule="C02.2"):
             else:
                 chk.undecided(rule, where, "%s: `%s` is not self.reward + fold" % (what, show(s0)))
             continue
+        kx = k.kfold(x)
+        if kx is None:
+            # "the expected reward of the successor that maximises / minimises the expected reward" is that maximum / minimum
+            from .C14 import arg_successor
+            v_, text_ = arg_successor(k, x, ER, "max" if role == "max" else "min")
+            if v_ is True:
+                chk.ok(rule, where, "%s = self.reward + expected_rewards at the arg-%s successor of expected_rewards (%s)" % (what, "max" if role == "max" else "min", text_))
+                continue
         if role == "max":
-            K.check_fold(chk, rule, where, k.kfold(x), what, kind="EXT", sense="max", term=SF(ER), init_ok=K.INIT_LE0, found_text=show(x))
+            K.check_fold(chk, rule, where, kx, what, kind="EXT", sense="max", term=SF(ER), init_ok=K.INIT_LE0, found_text=show(x))
         else:
-            K.check_fold(chk, rule, where, k.kfold(x), what, kind="EXT", sense="min", term=SF(ER), init_ok=K.INIT_FIRST_OR_INF, found_text=show(x))
+            K.check_fold(chk, rule, where, kx, what, kind="EXT", sense="min", term=SF(ER), init_ok=K.INIT_FIRST_OR_INF, found_text=show(x))
 
 
 def r3_sweep(ctx, chk, rule="C02.3"):
